@@ -30,19 +30,58 @@ def subtype_tag(root, leaf):
     raise AssertionError('not an enumerated subtype')
 
 
-def ref_encode(dt, sh):
-    """dt: declared ir type at this position; sh: shadow"""
-    dt = unalias(dt)
+BLOT_MASK = '********'
+
+
+def ref_redact(redactor, val):
+    """C13: the clear text is replaced by the blot mask, by the configured regex groups joined with ***, or by its
+    md5 hash (followed by the groups in parentheses when a regex is configured and matches)."""
+    import hashlib
+    import re
+    from stone.ir.data_types import RedactedHash
+    groups = None
+    if redactor.regex and isinstance(val, str):
+        m = re.search(redactor.regex, val)
+        if m:
+            groups = '***'.join(m.groups())
+    if isinstance(redactor, RedactedHash):
+        text = str(val) if isinstance(val, (int, float)) else val
+        digest = hashlib.md5(text.encode('utf-8')).hexdigest()
+        if groups is not None:
+            return '%s (%s)' % (digest, groups)
+        return digest
+    if groups is not None:
+        return groups
+    return BLOT_MASK
+
+
+def _redact_value(redactor, sh):
+    if isinstance(sh, list):
+        return [ref_redact(redactor, x) for x in sh]
+    if isinstance(sh, dict):
+        return {k: ref_redact(redactor, v) for k, v in sh.items()}
+    return ref_redact(redactor, sh)
+
+
+def ref_encode(dt, sh, perms=(), redact=False, redactor=None):
+    """dt: declared ir type at this position; sh: shadow; perms: caller classes held; redact: redaction requested;
+    redactor: the field-level redactor that applies at this position (C13)"""
+    if redact and redactor is not None and sh is not None:
+        return _redact_value(redactor, sh)
+    while is_alias(dt):
+        if redact and dt.redactor is not None and sh is not None:
+            return _redact_value(dt.redactor, sh)
+        dt = dt.data_type
     if is_nullable_type(dt):
         if sh is None:
             return None
-        return ref_encode(dt.data_type, sh)
+        return ref_encode(dt.data_type, sh, perms, redact)
     if is_void_type(dt):
         return None
     if is_list_type(dt):
-        return [ref_encode(dt.data_type, x) for x in sh]
+        return [ref_encode(dt.data_type, x, perms, redact) for x in sh]
     if is_map_type(dt):
-        return {k: ref_encode(dt.value_data_type, v) for k, v in sh.items()}
+        return {k: ref_encode(dt.value_data_type, v, perms, redact) for k, v in sh.items()}
     if is_struct_type(dt):
         _, actual, fields = sh
         out = {}
@@ -50,7 +89,10 @@ def ref_encode(dt, sh):
             out['.tag'] = subtype_tag(dt, actual)
         byname = {f.name: f for f in actual.all_fields}
         for name, fsh in fields.items():
-            out[name] = ref_encode(byname[name].data_type, fsh)
+            f = byname[name]
+            if f.omitted_caller is not None and f.omitted_caller not in perms:
+                continue
+            out[name] = ref_encode(f.data_type, fsh, perms, redact, f.redactor)
         return out
     if is_union_type(dt):
         _, u, tag, vsh = sh
@@ -58,9 +100,9 @@ def ref_encode(dt, sh):
         ft = unalias(f.data_type)
         if is_void_type(ft) or (is_nullable_type(ft) and vsh is None):
             return {'.tag': tag}
+        enc = ref_encode(f.data_type, vsh, perms, redact, f.redactor)
         if is_nullable_type(ft):
             ft = unalias(ft.data_type)
-        enc = ref_encode(ft, vsh)
         if is_struct_type(ft) and not ft.has_enumerated_subtypes():
             out = {'.tag': tag}
             out.update(enc)
